@@ -480,12 +480,12 @@ def fixed_families(rng, thorough=False):
         G(target='list', mode='debug', api='MultiSim', min_members=2),
         G(target='single', mode='debug', api='MultiSim'),
     ]
-    sc = G(target='single', mode='serial', api='multi_run', n_runs=2)
+    sc = G(target='single', mode='serial', api='multi_run', n_runs=2, own_people=False)
     sc['iterpars'] = dict(seeds=[rng.randint(0, 999), rng.randint(0, 999)], n_agents=[70, 90],
                           cfg_ids=[with_n_agents(sc['cfgs'], 0, 70), with_n_agents(sc['cfgs'], 0, 90)])
     sc['sim_args'] = dict(n_agents=55, cfg_id=with_n_agents(sc['cfgs'], 0, 55), seed=None, as_kwargs=False)
     fam.append(sc)
-    sc = G(target='list', mode='serial', api='MultiSim', inplace=True, min_members=2)
+    sc = G(target='list', mode='serial', api='MultiSim', inplace=True, min_members=2, own_people=False)
     if len({m['cfg'] for m in sc['members']}) == 1:
         sc['sim_args'] = dict(n_agents=80, cfg_id=with_n_agents(sc['cfgs'], sc['members'][0]['cfg'], 80), seed=None, as_kwargs=True)
     fam.append(sc)
@@ -727,29 +727,28 @@ def correspond_summarize(ctx, sims):
             if len(got) != len(mv) or not all(close(x, v, scale) for x, v in zip(got, mv)): return f'summarize({tag}) {k}: impl={val} model={[float(v) for v in mv]}'
         ctx.count('summarize_checks')
     # the summary of the reduced MultiSim
+    red = {}
     for um in (True, False):
         with quiet():
             m2 = ss.MultiSim(sims=list(sims))
             m2.mean() if um else m2.median()
-        outl = ctx.drive(DRIVER, [f'rsummary {int(um)} none none {k} {rowstr(k)}' for k in keys])
-        for k, ol in zip(keys, outl):
-            if not ol.startswith('ok '):
-                return f'summary after reduce {k}: model answered {ol}'
-            want = F(ol.split()[1])
-            scale = max(float(max(abs(x) for x in f[k])) for f in flats)
-            for name, summ in (('msim.summary', m2.summary), ('msim.base_sim.summary', m2.base_sim.summary)):
-                got = summ.get(k)
-                if not is_num(got) or not close(got, want, scale):
-                    return f"after {'mean' if um else 'median'}() {name}[{k}] impl={got!r} model={float(want)!r}"
-            ctx.count('reduced_summary_checks')
+        red[um] = m2
+    outl = ctx.drive(DRIVER, [f'rsummary {int(um)} none none {k} {rowstr(k)}' for um in (True, False) for k in keys])
+    for (um, k), ol in zip([(um, k) for um in (True, False) for k in keys], outl):
+        if not ol.startswith('ok '):
+            return f'summary after reduce {k}: model answered {ol}'
+        want = F(ol.split()[1])
+        scale = max(float(max(abs(x) for x in f[k])) for f in flats)
+        for name, summ in (('msim.summary', red[um].summary), ('msim.base_sim.summary', red[um].base_sim.summary)):
+            got = summ.get(k)
+            if not is_num(got) or not close(got, want, scale):
+                return f"after {'mean' if um else 'median'}() {name}[{k}] impl={got!r} model={float(want)!r}"
+        ctx.count('reduced_summary_checks')
     return None
 
 
-def correspond_host(ctx, sc, out, sched):
-    """ The model whose runs READ the hosting process's global generators (singleRunG / execParG / execSerialG), given the
-        observed schedule and arbitrary initial worker states: where it says a member's steps started from the generators
-        freshly seeded with its own seed (`S<eff>`), the real member -- run while the real process-global generators were in
-        the state sc['host'] (inherited by forked workers, handed on from member to member) -- must be the standalone run. """
+def host_line(sc, out, sched):
+    """ the driver line of the host-state model for this scenario (None: outside its scope) """
     if sc['api'] == 'initrun' or sc['mode'] == 'debug' or out['error'] or not sc.get('do_run', True): return None
     if sc.get('iterpars') or sc.get('sim_args') or any(m.get('alias') is not None for m in sc['members']): return None
     ini = lambda m: m['seed'] if sc.get('preinit') else 'none'
@@ -761,10 +760,16 @@ def correspond_host(ctx, sc, out, sched):
     mstr = ','.join(f"{m['cfg']}:{m['seed']}:{ini(m)}:0" for m in ms) or '-'
     h = int(sc.get('host') or 0)
     if sc['mode'] == 'parallel':
-        line = f"grun {mstr} {int(rs)} 1 private {','.join(f'{w}:{i}' for w, i in sched) or '-'} {','.join(str((h + 17 * w) % 1000) for w in range(8))}"
-    else:
-        line = f'gserial {mstr} {int(rs)} 1 {h % 1000}'
-    ol = ctx.drive(DRIVER, [line])[0]
+        return f"grun {mstr} {int(rs)} 1 private {','.join(f'{w}:{i}' for w, i in sched) or '-'} {','.join(str((h + 17 * w) % 1000) for w in range(8))}"
+    return f'gserial {mstr} {int(rs)} 1 {h % 1000}'
+
+
+def correspond_host(ctx, sc, out, line, ol):
+    """ The model whose runs READ the hosting process's global generators (singleRunG / execParG / execSerialG), given the
+        observed schedule and arbitrary initial worker states: where it says a member's steps started from the generators
+        freshly seeded with its own seed (`S<eff>`), the real member -- run while the real process-global generators were in
+        the state sc['host'] (inherited by forked workers, handed on from member to member) -- must be the standalone run. """
+    h = int(sc.get('host') or 0)
     if not ol.startswith('ok '):
         return f'host-state model answered {ol} for `{line}` although the real run succeeded'
     toks = ol[3:].split(',')
@@ -826,6 +831,8 @@ def correspond(ctx):
                   P(target='list', mode='parallel', n_cpus=1, api='multi_run',
                     members=[dict(cfg=0, seed=31), dict(cfg=0, seed=31, alias=0), dict(cfg=0, seed=32), dict(cfg=0, seed=33), dict(cfg=0, seed=34)])]
     n_reduce = 0
+    # pass 1: the real code; pass 2: ONE driver call for all scenarios (pure model + host-state model), then the comparisons
+    records = []
     for sc in scenarios:
         try:
             out = run_impl(sc)
@@ -840,9 +847,15 @@ def correspond(ctx):
             ctx.count('observed_multi_worker', int(nworkers > 1))
             if nworkers > workers:
                 ctx.broke('correspondence', 'C18.workers', f'{nworkers} worker processes observed, pool of {workers} expected', data=dict(kind='scenario', scenario=sc))
-        ml = ctx.drive(DRIVER, [model_line(sc, sched, chunk)])[0]
+        records.append((sc, out, sched, chunk, model_line(sc, sched, chunk), host_line(sc, out, sched)))
+    lines = []
+    for rec in records:
+        lines += [rec[4], rec[5] or 'chunk 1 1']
+    outl = ctx.drive(DRIVER, lines) if lines else []
+    for ri, (sc, out, sched, chunk, mline, hline) in enumerate(records):
+        ml, hl = outl[2 * ri], outl[2 * ri + 1]
         if ml == 'bad-op':
-            ctx.broke('correspondence', 'C18.run', 'model rejected the scenario line', data=dict(kind='scenario', scenario=sc, line=model_line(sc, sched, chunk)))
+            ctx.broke('correspondence', 'C18.run', 'model rejected the scenario line', data=dict(kind='scenario', scenario=sc, line=mline))
             continue
         model = parse_model(ml)
         div = compare_outcome(sc, out, model)
@@ -859,7 +872,7 @@ def correspond(ctx):
             ctx.broke('correspondence', 'C18.run', f'MultiSim/multi_run diverges from Model/MultiRun.lean: {div}',
                       data=dict(kind='scenario', scenario=sc, model=ml, schedule=sched))
             break
-        div = correspond_host(ctx, sc, out, sched)
+        div = correspond_host(ctx, sc, out, hline, hl) if hline else None
         if div:
             ctx.broke('correspondence', 'C18.host', f'runs reading the hosting process\'s global generators diverge from Model/MultiRun.lean (execParG/execSerialG): {div}',
                       data=dict(kind='scenario', scenario=sc, schedule=sched))
